@@ -211,7 +211,7 @@ theorem runSeq_eq_runLabels (s : St) (ls : List Label) : runSeq s ls = runLabels
     | none => rfl
     | some s' => exact ih s'
 
-theorem runLabels_append {s s1 s2 : St} {ls ms : List Label}
+theorem runLabels_append_la {s s1 s2 : St} {ls ms : List Label}
     (h1 : runLabels s ls = some s1) (h2 : runLabels s1 ms = some s2) : runLabels s (ls ++ ms) = some s2 := by
   rw [runLabels_eq_runG] at *
   exact runG_append step h1 h2
@@ -268,7 +268,7 @@ theorem advance_sound (hid : List Label) (ss : List St) (o : Obs) :
   -- it is enough to find the alternative that led to `s1`
   suffices hmid : ∃ s, s ∈ ss ∧ ∃ ls, o.Alt s ls ∧ runLabels s ls = some s1 by
     obtain ⟨s, hs0, ls, halt, hrun⟩ := hmid
-    exact ⟨s, hs0, ls, hs, halt, hh, runLabels_append hrun hr⟩
+    exact ⟨s, hs0, ls, hs, halt, hh, runLabels_append_la hrun hr⟩
   unfold observe at h1
   cases o with
   | lab l =>
@@ -340,7 +340,7 @@ theorem Run.labels {hid : List Label} {s s' : St} {obs : List Obs} (h : Run hid 
   | cons hex _ ih =>
     obtain ⟨ls, hs, _, _, hrun⟩ := hex
     obtain ⟨ms, hms⟩ := ih
-    exact ⟨(ls ++ hs) ++ ms, runLabels_append hrun hms⟩
+    exact ⟨(ls ++ hs) ++ ms, runLabels_append_la hrun hms⟩
 
 /-- the same, for any set of hidden labels (the driver hides the Send calls of its spare senders as well) -/
 theorem accepted_sound (hid : List Label) (c : Config) (obs : List Obs)
@@ -622,7 +622,7 @@ def fuelOK (hid : List Label) : List St → List Obs → Bool
   | _, [] => true
   | ss, o :: os => closeDone hid (observe ss o) && fuelOK hid (advance hid ss o) os
 
-theorem runLabels_split {s s' : St} {ls ms : List Label} (h : runLabels s (ls ++ ms) = some s') :
+theorem runLabels_split_la {s s' : St} {ls ms : List Label} (h : runLabels s (ls ++ ms) = some s') :
     ∃ s1, runLabels s ls = some s1 ∧ runLabels s1 ms = some s' := by
   induction ls generalizing s with
   | nil => exact ⟨s, rfl, by simpa using h⟩
@@ -640,7 +640,7 @@ theorem closure_complete (hid : List Label) (ss : List St) (hdone : closeDone hi
 theorem advance_complete (hid : List Label) (ss : List St) (o : Obs) (hdone : closeDone hid (observe ss o) = true)
     {s s' : St} (hs : s ∈ ss) (hex : Explains hid s s' o) : s' ∈ advance hid ss o := by
   obtain ⟨ls, hs', halt, hh, hrun⟩ := hex
-  obtain ⟨s1, hr1, hr2⟩ := runLabels_split hrun
+  obtain ⟨s1, hr1, hr2⟩ := runLabels_split_la hrun
   refine closure_complete hid _ hdone (s := s1) ?_ hr2 hh
   unfold observe
   cases o with
